@@ -4,6 +4,7 @@ import (
 	"fmt"
 	"sort"
 	"strings"
+	"sync"
 
 	"github.com/paulmach/osm"
 
@@ -453,6 +454,59 @@ func c03Exec(c fw.Case) *fw.Result {
 		}
 		res.Eval("")
 		res.Sample = map[string]any{"root": d.Kind, "xml": text, "unmarshal_error": fmt.Sprint(err), "scanner_error": fmt.Sprint(serr)}
+	case "concurrent":
+		// independent documents decoded by many goroutines at once: decoding must not share
+		// mutable package state (each result is still compared with its own model)
+		n := int(c.Int("docs"))
+		type job struct {
+			d     *xmlw.Doc
+			text  string
+			chunk int
+		}
+		var jobs []job
+		for i := 0; i < n; i++ {
+			seed := gen.Sub(c.Seed, "c03cdoc", i)
+			r := gen.New(seed, "c03random")
+			root := c03Roots[r.Intn(len(c03Roots))]
+			if i%2 == 0 {
+				root = "osm" // notes, changesets and users only live under <osm>
+			}
+			g := xmlw.NewG(r, 0.85)
+			g.MaxList = 5
+			d := g.Doc(root, 12)
+			if root == "osm" {
+				// notes as the API writes them: the first comment repeats the creation date,
+				// every document with its own dates
+				for k := 0; k < 4; k++ {
+					t := osm.Date{Time: r.Time()}
+					d.Objects = append(d.Objects, &osm.Note{ID: osm.NoteID(9000 + i*10 + k), Lat: r.Coord(80), Lon: r.Coord(170), DateCreated: t, Status: osm.NoteOpen,
+						Comments: []*osm.NoteComment{{Date: t, Action: osm.NoteCommentOpened, Text: "t" + r.Word(), HTML: "h" + r.Word()},
+							{Date: osm.Date{Time: r.Time()}, Action: osm.NoteCommentComment, Text: "c" + r.Word(), HTML: "h" + r.Word()}}})
+				}
+			}
+			text, _, _, _ := d.Render(gen.New(seed, "c03render"), xmlw.Noise{})
+			jobs = append(jobs, job{d, text, c03Chunks[r.Intn(len(c03Chunks))]})
+		}
+		var wg sync.WaitGroup
+		start := make(chan struct{})
+		for g := 0; g < 16; g++ {
+			wg.Add(1)
+			go func(g int) {
+				defer wg.Done()
+				<-start
+				for rep := 0; rep < 3; rep++ {
+					for i := range jobs {
+						j := jobs[(i+g*5)%len(jobs)]
+						c03Check(res, j.d, j.text, j.chunk, map[string]any{"concurrent": true, "goroutine": g})
+					}
+				}
+			}(g)
+		}
+		close(start)
+		wg.Wait()
+		res.Add("concurrent_decodes", int64(16*3*len(jobs)))
+		res.Eval("concurrent|" + c.Variant)
+		res.Sample = map[string]any{"goroutines": 16, "documents": len(jobs), "variant": c.Variant}
 	case "random":
 		n := int(c.Int("docs"))
 		for i := 0; i < n; i++ {
@@ -529,6 +583,9 @@ func c03Cases(tier string, seed uint64) []fw.Case {
 	}
 	for i := 0; i < n; i++ {
 		cs = append(cs, fw.Case{Kind: "random", Seed: gen.Sub(seed, "c03r", i), P: map[string]int64{"docs": 10}})
+	}
+	for i, v := range []string{"plain", "race", "race"} {
+		cs = append(cs, fw.Case{Kind: "concurrent", Variant: v, Seed: gen.Sub(seed, "c03conc", i), P: map[string]int64{"docs": 30}})
 	}
 	return fw.Number(cs)
 }
